@@ -193,6 +193,29 @@ Theorem c06_joint_inv_ack_then_truncate_partial : forall t now ack sk t' r (tx t
   ss_removed t' = g_removed tx'.
 Proof. exact joint_inv_ack_then_truncate. Qed.
 
+(* (h) at the connection: process_all_incoming_messages as a whole.  joint_rel p s = the table
+   invariant, removed_offset = bytes truncated from the ring + p, and the table ends inside the
+   ring.  Once its receive loop has returned - by whichever arm: `early` = true is the poll that
+   sees the message channel closed (finding T1 = D17, repaired) - the function never reports
+   BugTruncateFront and re-establishes the relation with p = 0, in every state. *)
+Theorem c06_joint_inv_process_all : forall (CC : Type) (cci : cc_iface CC) (s s1 : vsock CC) r early,
+  joint_rel 0 s ->
+  recv_loop cci (v_inbox s ++ [ {| m_hdr := outgoing_header s; m_payload := [] |} ]) s
+            on_ack_result_default = SOk s1 (r, early) ->
+  match process_all_incoming_messages cci s with
+  | SOk s' _ => joint_rel 0 s'
+  | SErr _ _ => False
+  | SPanic => True
+  end.
+Proof. exact (@joint_inv_process_all). Qed.
+
+(* ... and the receive loop itself: p grows by exactly the bytes the messages acknowledged *)
+Theorem c06_joint_recv_loop : forall (CC : Type) (cci : cc_iface CC) fuel (s : vsock CC) acc s' r early,
+  acc_ok acc -> joint_rel (ar_acked_bytes acc) s ->
+  recv_loop cci fuel s acc = SOk s' (r, early) ->
+  acc_ok r /\ joint_rel (ar_acked_bytes r) s'.
+Proof. exact (@recv_loop_joint). Qed.
+
 Print Assumptions c06_rto_resends_first_unacked.
 Print Assumptions c06_backoff_doubles.
 Print Assumptions c06_backoff_within_bounds.
@@ -215,3 +238,5 @@ Print Assumptions c06_karn.
 Print Assumptions c06_process_incoming_message_parts.
 Print Assumptions c06_stable_content_partial.
 Print Assumptions c06_joint_inv_ack_then_truncate_partial.
+Print Assumptions c06_joint_inv_process_all.
+Print Assumptions c06_joint_recv_loop.
